@@ -293,6 +293,9 @@ func LocksHeld() int     { return 0 }
 // the next recorded instant, shared with the time shim).
 func NowNano() int64 { return int64(next("clock")) }
 
+// ResetHooks are run before every native re-execution of the harness (schedule search, loops).
+var ResetHooks []func()
+
 // AdvanceHook is installed by the time shim (native replay only).
 var AdvanceHook func(all bool)
 
@@ -725,6 +728,9 @@ func RunSchedules(harness func()) {
 		mu.Lock()
 		ni, ci, stamp = 0, 0, 0
 		mu.Unlock()
+		for _, h := range ResetHooks {
+			h()
+		}
 	}
 	if !schedOn {
 		n, _ := strconv.Atoi(os.Getenv("ZV_LOOP"))
